@@ -791,19 +791,13 @@ func c06CheckImage(x *kit.Ctx, m *c06Img) {
 	}
 	final, _ := os.ReadFile(path)
 	fl, err := refcar.DecodeFile(final, o.ZeroEOF)
-	if err != nil && strings.Contains(err.Error(), "non-zero index padding") && len(final) >= refcar.PragmaSize+refcar.V2HeaderSize {
-		// the format does not constrain the content of the padding (refcar is stricter than that):
-		// count it, blank the padding and judge the rest
+	if err == nil && fl.IndexPaddingNonZero {
+		// the format does not constrain the content of the padding: counted, not judged
 		if m.staleTail {
 			x.Outcome("final-index-padding-not-zero:zeroeof-stale-tail")
 		} else {
 			x.Outcome("final-index-padding-not-zero")
 		}
-		h := refcar.ParseV2Header(final[refcar.PragmaSize:])
-		for k := h.DataOffset + h.DataSize; k < h.IndexOffset && k < uint64(len(final)); k++ {
-			final[k] = 0
-		}
-		fl, err = refcar.DecodeFile(final, o.ZeroEOF)
 	}
 	if err != nil {
 		fail("c06:"+class+":malformed-after-continue", "file after resume+Put+Finalize is not well-formed: %v", err)
